@@ -10,6 +10,12 @@ REGISTRY = {
     'C06': 'contracts.c06_units',
     'C13': 'contracts.c13_slicer',
     'C14': 'contracts.c14_parse',
+    'C01': ('contracts.propsets', 'C01'),
+    'C02': ('contracts.propsets', 'C02'),
+    'C03': ('contracts.propsets', 'C03'),
+    'C10': ('contracts.propsets', 'C10'),
+    'C11': ('contracts.propsets', 'C11'),
+    'C17': ('contracts.propsets', 'C17'),
 }
 
 
@@ -38,14 +44,21 @@ def main(argv):
     if pid not in REGISTRY:
         print(f"unknown property {pid}")
         return 3
-    mod = importlib.import_module(REGISTRY[pid])
+    entry = REGISTRY[pid]
+    modname, arg = (entry, None) if isinstance(entry, str) else entry
+    mod = importlib.import_module(modname)
     if hasattr(mod, 'build_check'):
         chk = mod.build_check(tier)
     else:
         chk = harness.Check(pid, tier)
-        chk.add_tasks(REGISTRY[pid], 'run', mod.tasks(tier))
+        if arg is None:
+            chk.add_tasks(modname, 'run', mod.tasks(tier))
+            fns = getattr(mod, 'FUNCTIONS', [])
+        else:
+            chk.add_tasks(modname, 'run', [(arg,) + tuple(t) for t in mod.tasks(tier, arg)])
+            fns = getattr(mod, 'FUNCTIONS', {}).get(arg, [])
         from . import vc
-        for q in getattr(mod, 'FUNCTIONS', []):
+        for q in fns:
             try:
                 chk.functions[q] = vc.repo().source_hash(q)
             except Exception as e:
